@@ -104,10 +104,11 @@ Fixpoint map_loop (g : nat) (kt vt : ty) (isnil : bool) (m : list (gval * gval))
     | tk :: rest =>
         if kind tk =? KMapEnd then Ok (GMap isnil m, rest)
         else bind (rec kt (zero kt) ts) (fun kr =>
-             if negb (comparable_val (fst kr)) then Err EBadMapKey
+             let key := iface_key kt (fst kr) in
+             if negb (comparable_val key) then Err EBadMapKey
              else
              bind (rec vt (zero vt) (snd kr)) (fun vr =>
-             map_loop g' kt vt false (map_set (fst kr) (fst vr) m) (snd vr)))
+             map_loop g' kt vt false (map_set key (fst vr) m) (snd vr)))
     end
   end.
 
@@ -120,10 +121,7 @@ Fixpoint genmap_loop (g : nat) (m : list (gval * gval)) (ts : list token) : res 
     | tk :: rest =>
         if kind tk =? KMapEnd then Ok (GAny (Some (TMap TAny TAny, GMap false m)), rest)
         else bind (rec TAny (GAny None) ts) (fun kr =>
-             let key := match fst kr with
-                        | GAny (Some (TBytes, GBytes _ s)) => GAny (Some (TByteArray (length s), GBytes false s))
-                        | k => k
-                        end in
+             let key := to_comparable (fst kr) in
              match key with
              | GAny None => Err EBadMapKey
              | GAny (Some (kt, kv)) =>
